@@ -376,6 +376,10 @@ func init() {
 	// typed events are rendered through reflection-driven JSON; events are outside every claim
 	externals["(*github.com/cosmos/cosmos-sdk/types.EventManager).EmitTypedEvent"] = func(fr *frame, args []value) value { return iface{} }
 	externals["(*github.com/cosmos/cosmos-sdk/types.EventManager).EmitTypedEvents"] = func(fr *frame, args []value) value { return iface{} }
+	// JSON renderings only feed events and logs
+	externals["encoding/json.Marshal"] = func(fr *frame, args []value) value {
+		return tuple{bytesToValue([]byte("{}")), iface{}}
+	}
 	registerFmt()
 	registerErrors()
 }
